@@ -44,10 +44,18 @@ func parseEd25519Key(d *jsonutils.Decoder, key *Key) {
 }
 
 func encodeEd25519Key(e *jsonutils.Encoder, priv ed25519.PrivateKey, pub ed25519.PublicKey) {
+	if err := validateEd25519PublicKey(pub); err != nil {
+		e.SaveError(err)
+		return
+	}
 	e.Set("kty", jwa.OKP.String())
 	e.Set("crv", jwa.Ed25519.String())
 	e.SetBytes("x", []byte(pub))
 	if priv != nil {
+		if err := validateEd25519PrivateKey(priv); err != nil {
+			e.SaveError(err)
+			return
+		}
 		e.SetBytes("d", []byte(priv[:ed25519.SeedSize]))
 	}
 }
